@@ -14,7 +14,7 @@ for s in "${seeds[@]}"; do
   cb=$(python3 -c "import json;print(json.load(open('/verif/seeded/$s/meta.json')).get('checked_by',''))" 2>/dev/null); [ -n "$cb" ] && p=$cb
   git -C /repo apply /verif/seeded/$s/patch.diff || { echo "| $s | $p | PATCH-DOES-NOT-APPLY | | | |" >> $out; continue; }
   line=$(python3 check.py $p --tier quick 2>&1 | grep -E "^VIOLATION" | head -1)
-  git -C /repo checkout -- . ; git -C /repo clean -fdq -- src examples tests 2>/dev/null
+  git -C /repo checkout -- . ; git -C /repo clean -fdq -- src examples tests dict 2>/dev/null
   if [ -z "$line" ]; then echo "| $s | $p | **MISSED** | | | |" >> $out; echo "$s MISSED"; continue; fi
   rp=$(echo "$line" | sed -E 's/.*replay=([^ ]+).*/\1/')
   info=$(python3 - "$rp" <<'PY'
